@@ -154,6 +154,20 @@ fn value_families(thorough: bool) -> Vec<(String, MetadataWrapper)> {
     for t in instants {
         out.push((format!("layout expires@{t}"), MetadataWrapper::Layout(world::layout(vec![], vec![], &[], epoch + chrono::Duration::seconds(t)))));
     }
+    // numeric sweeps: thresholds and return values
+    let mut thrs: Vec<u32> = (0..=300).collect();
+    for k in 8..32 {
+        thrs.extend([(1u32 << k) - 1, 1u32 << k, (1u32 << k) + 1]);
+    }
+    thrs.push(u32::MAX);
+    for t in thrs {
+        out.push((format!("layout threshold={t}"), MetadataWrapper::Layout(world::layout(vec![world::step("s", t, &[])], vec![], &[], base_t))));
+    }
+    let mut rets: Vec<i32> = (-300..=300).collect();
+    rets.extend([i32::MIN, i32::MIN + 1, i32::MAX - 1, i32::MAX, 65535, 65536, -65536]);
+    for r in rets {
+        out.push((format!("link return-value={r}"), link_struct("n", &[], None, &[], &[], None, None, Some(r))));
+    }
     // rule forms
     let mut rules: Vec<ArtifactRule> = vec![];
     for p in ["a", "*", "", "IN", "WITH", "FROM"] {
